@@ -62,7 +62,9 @@ def expand_str(s):
 
 HARD_SETS = [[str(i) for i in range(1, 9)], ['a1', 'a2', 'a3', 'a4'], ['p01', 'p02', 'p03', 'p04']]
 NODE_PFX = ['t', 't', 'n', 't1', 'node', 'x-', 't1a', 'c0', 'n0']
-MALFORMED = ['t[0-3', 't[3-1]', 't[a-c]', 't1]', 't[]', 'n[1-', 't[1-100000]', 't[1--2]']
+MALFORMED = ['t[0-3', 't[3-1]', 't[a-c]', 't1]', 't[]', 'n[1-', 't[1-100000]', 't[1--2]',
+             # hi - lo + 1 wraps in unsigned long (F30): must be refused as too many hosts, never iterated
+             't[0-18446744073709551615]', 't[1-18446744073709551616]', 'q[7-99999999999999999999]']
 
 
 def spell_range(R, pfx, w, lo, k, sfx):
@@ -623,8 +625,9 @@ def one(args):
 class ConfigLayer:
     name = 'config'
 
-    def __init__(self, quick=(16, 150), thorough=(256, 400)):
-        self.quick = quick; self.thorough = thorough
+    def __init__(self, quick=(16, 150), thorough=(256, 400), prop='C13'):
+        self.quick = quick; self.thorough = thorough; self.prop = prop
+        if prop != 'C13': self.name = 'config-' + prop
 
     def build(self):
         build()
@@ -635,8 +638,12 @@ class ConfigLayer:
         rs = pmap(one, [(seed * 7907 + k * 104729 + 11, n) for k in range(ns)])
         st = collections.Counter()
         for r in rs: st.update(r['stats'])
+        viols = [v for r in rs for v in r['violations']]
+        if self.prop == 'C18':
+            # the parser-safety half of what this layer sees: the real parser died, hung, or refused a file without status and diagnostic
+            viols = [dict(v, sig=v['sig'].replace('C13', 'C18', 1)) for v in viols if 'parser died' in v['sig'] or 'refused without' in v['sig']]
         return dict(name=self.name, evaluations=sum(r['n'] for r in rs), distinct=sum(r['distinct'] for r in rs), samples=[rs[0]['sample']],
-                    stats=dict(sorted(st.items())), diffs=[d for r in rs for d in r['diffs']], violations=[v for r in rs for v in r['violations']],
+                    stats=dict(sorted(st.items())), diffs=[d for r in rs for d in r['diffs']], violations=viols,
                     rule='one evaluation = one configuration (2-3 specifications with hard-wired or free plugs, 1-3 devices, 0-9 node lines in every host-range spelling with and without plug lists, 0-5 alias lines, every rejection rule injected with small probability, include nesting 0-3 with blank and comment lines) read by the real lexer, grammar, makeDevice/makeNode/makeAlias, pluglist_map, conf_addnodes and _validate_config in a fresh process, compared with Pm.ConfigModel.build: accept/reject, diagnostic class, offending line (file::line against the position of the model\'s statement index), and the full dump of devices, plugs, nodes and aliases; the C13 predicates are evaluated on the real code\'s answer against a declarative rule checker independent of the model; distinct = distinct statement lists per run')
 
     def replay(self, rp, v):
